@@ -17,17 +17,17 @@ Definition interp_ok (litv : list ascii -> R) (fn : list ascii -> list R -> R) :
   litv ["0"; "."; "0"]%char = 0 /\ (forall x, fn ["p"; "o"; "w"]%char [x; 0] = 1) /\ fn ["e"; "x"; "p"]%char [0] = 1.
 
 (* KIDA formulae 1-5; formula 6 and unknown formulae are refused *)
-Theorem kida_laws : forall litv var fn mag idx, interp_ok litv fn -> forall ka kb kc,
+Theorem kida_laws : forall litv var fn mag idx nm, interp_ok litv fn -> forall ka kb kc,
   let al := cval mag ka 0 in let be := cval mag kb 1 in let ga := cval mag kc 2 in
-  sem litv var fn mag idx (kida_rate ka kb kc 1) = Some (law_cosmicray var al) /\
-  sem litv var fn mag idx (kida_rate ka kb kc 2) = Some (law_photo var fn al ga) /\
-  sem litv var fn mag idx (kida_rate ka kb kc 3) = Some (law_arrhenius litv var fn al be ga) /\
-  sem litv var fn mag idx (kida_rate ka kb kc 4) = Some (law_ionpol1 litv var fn al be ga) /\
-  sem litv var fn mag idx (kida_rate ka kb kc 5) = Some (law_ionpol2 litv var fn al be ga) /\
+  sem litv var fn mag idx nm (kida_rate ka kb kc 1) = Some (law_cosmicray var al) /\
+  sem litv var fn mag idx nm (kida_rate ka kb kc 2) = Some (law_photo var fn al ga) /\
+  sem litv var fn mag idx nm (kida_rate ka kb kc 3) = Some (law_arrhenius litv var fn al be ga) /\
+  sem litv var fn mag idx nm (kida_rate ka kb kc 4) = Some (law_ionpol1 litv var fn al be ga) /\
+  sem litv var fn mag idx nm (kida_rate ka kb kc 5) = Some (law_ionpol2 litv var fn al be ga) /\
   kida_rate ka kb kc 6 = inl RNotImplemented /\
   (forall f, (f <? 1)%Z || (6 <? f)%Z = true -> kida_rate ka kb kc f = inl RUnknown).
 Proof.
-  intros litv var fn mag idx (H0 & Hp & He) ka kb kc al be ga.
+  intros litv var fn mag idx nm (H0 & Hp & He) ka kb kc al be ga.
   split. apply kida1_lemma; assumption.
   split. apply kida2_lemma; assumption.
   split. apply kida3_lemma; assumption.
@@ -38,15 +38,15 @@ Qed.
 Print Assumptions kida_laws.
 
 (* UMIST: two-body, photo-process, cosmic-ray proton (alpha), cosmic-ray photon *)
-Theorem umist_laws : forall litv var fn mag idx, interp_ok litv fn -> forall ka kb kc,
+Theorem umist_laws : forall litv var fn mag idx nm, interp_ok litv fn -> forall ka kb kc,
   let al := cval mag ka 0 in let be := cval mag kb 1 in let ga := cval mag kc 2 in
-  sem litv var fn mag idx (umist ka kb kc (Some 100%Z)) = Some (law_arrhenius litv var fn al be ga) /\
-  sem litv var fn mag idx (umist ka kb kc (Some 102%Z)) = Some (law_photo var fn al ga) /\
-  sem litv var fn mag idx (umist ka kb kc (Some 101%Z)) = Some al /\
-  sem litv var fn mag idx (umist ka kb kc (Some 120%Z)) = Some (law_crphot litv var fn "1" al be ga) /\
+  sem litv var fn mag idx nm (umist ka kb kc (Some 100%Z)) = Some (law_arrhenius litv var fn al be ga) /\
+  sem litv var fn mag idx nm (umist ka kb kc (Some 102%Z)) = Some (law_photo var fn al ga) /\
+  sem litv var fn mag idx nm (umist ka kb kc (Some 101%Z)) = Some al /\
+  sem litv var fn mag idx nm (umist ka kb kc (Some 120%Z)) = Some (law_crphot litv var fn "1" al be ga) /\
   umist ka kb kc None = inl RUnknown.
 Proof.
-  intros litv var fn mag idx (H0 & Hp & He) ka kb kc al be ga.
+  intros litv var fn mag idx nm (H0 & Hp & He) ka kb kc al be ga.
   split. apply umist_tb_lemma; assumption.
   split. apply umist_ph_lemma; assumption.
   split. apply umist_cp_lemma; assumption.
@@ -56,20 +56,20 @@ Qed.
 Print Assumptions umist_laws.
 
 (* Leeds gas-phase types 1-4, 11, 12 (with the self-shielding factor when the class appends it) *)
-Theorem leeds_laws : forall litv var fn mag idx, interp_ok litv fn -> forall ka kb kc,
+Theorem leeds_laws : forall litv var fn mag idx nm, interp_ok litv fn -> forall ka kb kc,
   let al := cval mag ka 0 in let be := cval mag kb 1 in let ga := cval mag kc 2 in
   let zrel := (V var "zeta_cr" + V var "zeta_xr") / V var "zism" in
   let crp := al * zrel * F2 fn "pow" (T var / Lt litv "300.0") be * ga / (Lt litv "1.0" - V var "omega") in
-  sem litv var fn mag idx (leeds_rate ka kb kc 1 "") = Some (law_arrhenius litv var fn al be ga) /\
-  sem litv var fn mag idx (leeds_rate ka kb kc 2 "") = Some (al * (V var "zeta_cr" + V var "zeta_xr") / V var "zism") /\
-  sem litv var fn mag idx (leeds_rate ka kb kc 3 "") = Some crp /\
-  sem litv var fn mag idx (leeds_rate ka kb kc 4 "") = Some (V var "G0" * law_photo var fn al ga) /\
-  sem litv var fn mag idx (leeds_rate ka kb kc 4 "GetShieldingFactor(IDX_COI, h2col, cocol, Tgas, 0)") =
+  sem litv var fn mag idx nm (leeds_rate ka kb kc 1 "") = Some (law_arrhenius litv var fn al be ga) /\
+  sem litv var fn mag idx nm (leeds_rate ka kb kc 2 "") = Some (al * (V var "zeta_cr" + V var "zeta_xr") / V var "zism") /\
+  sem litv var fn mag idx nm (leeds_rate ka kb kc 3 "") = Some crp /\
+  sem litv var fn mag idx nm (leeds_rate ka kb kc 4 "") = Some (V var "G0" * law_photo var fn al ga) /\
+  sem litv var fn mag idx nm (leeds_rate ka kb kc 4 "GetShieldingFactor(IDX_COI, h2col, cocol, Tgas, 0)") =
     Some (V var "G0" * law_photo var fn al ga * shield_call litv var fn "IDX_COI" "cocol" "0") /\
-  sem litv var fn mag idx (leeds_rate ka kb kc 11 "") = Some crp /\
-  sem litv var fn mag idx (leeds_rate ka kb kc 12 "") = Some (V var "G0" * law_photo var fn al ga).
+  sem litv var fn mag idx nm (leeds_rate ka kb kc 11 "") = Some crp /\
+  sem litv var fn mag idx nm (leeds_rate ka kb kc 12 "") = Some (V var "G0" * law_photo var fn al ga).
 Proof.
-  intros litv var fn mag idx (H0 & Hp & He) ka kb kc al be ga zrel crp.
+  intros litv var fn mag idx nm (H0 & Hp & He) ka kb kc al be ga zrel crp.
   split. apply leeds1_lemma; assumption.
   split. apply leeds2_lemma; assumption.
   split. apply leeds3_lemma; assumption.
@@ -81,18 +81,18 @@ Qed.
 Print Assumptions leeds_laws.
 
 (* UCLCHEM gas-phase types *)
-Theorem uclchem_laws : forall litv var fn mag idx, interp_ok litv fn -> forall ka kb kc,
+Theorem uclchem_laws : forall litv var fn mag idx nm, interp_ok litv fn -> forall ka kb kc,
   let al := cval mag ka 0 in let be := cval mag kb 1 in let ga := cval mag kc 2 in
-  sem litv var fn mag idx (ucl ka kb kc 100%Z false) = Some (law_arrhenius litv var fn al be ga) /\
-  sem litv var fn mag idx (ucl ka kb kc 101%Z false) = Some (al * (V var "zeta" / V var "zism")) /\
-  sem litv var fn mag idx (ucl ka kb kc 120%Z false) =
+  sem litv var fn mag idx nm (ucl ka kb kc 100%Z false) = Some (law_arrhenius litv var fn al be ga) /\
+  sem litv var fn mag idx nm (ucl ka kb kc 101%Z false) = Some (al * (V var "zeta" / V var "zism")) /\
+  sem litv var fn mag idx nm (ucl ka kb kc 120%Z false) =
     Some (al * (V var "zeta" / V var "zism") * F2 fn "pow" (T var / Lt litv "300.0") be * ga / (Lt litv "1.0" - V var "omega")) /\
-  sem litv var fn mag idx (ucl ka kb kc 102%Z false) = Some (V var "G0" * law_photo var fn al ga / Lt litv "1.7") /\
-  sem litv var fn mag idx (ucl ka kb kc 102%Z true) =
+  sem litv var fn mag idx nm (ucl ka kb kc 102%Z false) = Some (V var "G0" * law_photo var fn al ga / Lt litv "1.7") /\
+  sem litv var fn mag idx nm (ucl ka kb kc 102%Z true) =
     Some (Lt litv "2.0e-10" * V var "G0" * RateUcl.shield_call litv var fn "IDX_COI" "cocol" "1" *
           fn (chars "GetGrainScattering") [V var "Av"; V var "lambdabar"] / Lt litv "1.7").
 Proof.
-  intros litv var fn mag idx (H0 & Hp & He) ka kb kc al be ga.
+  intros litv var fn mag idx nm (H0 & Hp & He) ka kb kc al be ga.
   split. apply ucl_ma_lemma; assumption.
   split. apply ucl_cr_lemma; assumption.
   split. apply ucl_cp_lemma; assumption.
@@ -102,16 +102,16 @@ Qed.
 Print Assumptions uclchem_laws.
 
 (* the native types *)
-Theorem native_laws : forall litv var fn mag idx, interp_ok litv fn -> forall ka kb kc,
+Theorem native_laws : forall litv var fn mag idx nm, interp_ok litv fn -> forall ka kb kc,
   let al := cval mag ka 0 in let be := cval mag kb 1 in let ga := cval mag kc 2 in
-  sem litv var fn mag idx (nat_rate true ka kb kc 100%Z) = Some (law_arrhenius litv var fn al be ga) /\
-  sem litv var fn mag idx (nat_rate true ka kb kc 101%Z) = Some (law_cosmicray var al) /\
-  sem litv var fn mag idx (nat_rate true ka kb kc 102%Z) = Some (law_photo var fn al ga) /\
-  sem litv var fn mag idx (nat_rate true ka kb kc 110%Z) = Some (law_ionpol1 litv var fn al be ga) /\
-  sem litv var fn mag idx (nat_rate true ka kb kc 111%Z) = Some (law_ionpol2 litv var fn al be ga) /\
-  sem litv var fn mag idx (nat_rate true ka kb kc 120%Z) = Some (law_crphot litv var fn "1" al be ga).
+  sem litv var fn mag idx nm (nat_rate true ka kb kc 100%Z) = Some (law_arrhenius litv var fn al be ga) /\
+  sem litv var fn mag idx nm (nat_rate true ka kb kc 101%Z) = Some (law_cosmicray var al) /\
+  sem litv var fn mag idx nm (nat_rate true ka kb kc 102%Z) = Some (law_photo var fn al ga) /\
+  sem litv var fn mag idx nm (nat_rate true ka kb kc 110%Z) = Some (law_ionpol1 litv var fn al be ga) /\
+  sem litv var fn mag idx nm (nat_rate true ka kb kc 111%Z) = Some (law_ionpol2 litv var fn al be ga) /\
+  sem litv var fn mag idx nm (nat_rate true ka kb kc 120%Z) = Some (law_crphot litv var fn "1" al be ga).
 Proof.
-  intros litv var fn mag idx (H0 & Hp & He) ka kb kc. apply native_laws_lemma; assumption.
+  intros litv var fn mag idx nm (H0 & Hp & He) ka kb kc. apply native_laws_lemma; assumption.
 Qed.
 Print Assumptions native_laws.
 
